@@ -82,6 +82,39 @@ func c15Parse(c *core.Case, o *core.Outcome) {
 	var p c15Params
 	c.Params(&p)
 	r := c.Rng("parse")
+	// a long plan (a day in one-minute stages and more: well over 64 KiB of YAML) through the command's own
+	// builder: every stage is there and the total is the sum
+	{
+		nst := 1300 + r.IntN(600)
+		var y strings.Builder
+		y.WriteString("scenario: verifScenario\nlimits:\n  max-duration: 48h\n  concurrency: 5\n  max-iterations: 0\n  ignore-dropped: true\ndefault:\n  distribution: none\n  jitter: 0\nstages:\n")
+		var total time.Duration
+		for k := 0; k < nst; k++ {
+			d := time.Duration(30+r.IntN(90)) * time.Second
+			total += d
+			fmt.Fprintf(&y, "- duration: %s\n  mode: constant\n  rate: %d/s\n  parameters:\n    VERIF_LONG_PLAN_STAGE: \"%d\"\n", d, 1+k%50, k)
+		}
+		if path, terr := engine.TempYAML(y.String()); terr == nil {
+			b := file.Rate(engine.NewOutput(engine.NewLog(), false))
+			perr := b.Flags.Parse([]string{path})
+			var trig *api.Trigger
+			if perr == nil {
+				trig, perr = b.New(b.Flags)
+			}
+			os.Remove(path)
+			want := fmt.Sprintf("%d different stages", nst)
+			if perr != nil || trig.Duration != total || trig.Description != want {
+				got := ""
+				var gd time.Duration
+				if trig != nil {
+					got, gd = trig.Description, trig.Duration
+				}
+				o.Violate("long-plan", "a config file of %d stages (%d bytes) built through the file command: error %v, description %q (want %q), total duration %v (want %v)", nst, y.Len(), perr, got, want, gd, total)
+				return
+			}
+			o.AddObs("long_plans_through_builder", 1)
+		}
+	}
 	for pi := 0; pi < p.Plans && o.Verdict != core.Violated; pi++ {
 		ns := 1 + r.IntN(6)
 		limConc := 1 + r.IntN(50)
